@@ -16,7 +16,9 @@ _ORIG = {}
 
 def _poison_arr(a):
     k = a.dtype.kind
-    if k in 'fc':
+    if k == 'c':
+        a.fill(complex(np.nan, np.nan))      # both parts (a bare NaN only poisons the real part)
+    elif k == 'f':
         a.fill(np.nan)
     elif k in 'iu':
         a.fill(np.iinfo(a.dtype).max // 3)
